@@ -5,9 +5,10 @@ units (vlib/pyvc/units.py) whose proof obligations belong to the property;
 PROPS = {}
 
 
-def _p(pid, title, rule, obligations=(), level='exploration', bounded=True, explanation=''):
+def _p(pid, title, rule, obligations=(), level='exploration', bounded=True, explanation='', **kw):
     PROPS[pid] = {'id': pid, 'title': title, 'rule': rule, 'obligations': list(obligations),
                   'level': level, 'bounded': bounded, 'explanation': explanation}
+    PROPS[pid].update(kw)
 
 
 _p('C01', 'text <-> tree lossless',
@@ -50,3 +51,18 @@ _p('C19', 'triple conjunction round-trips',
    'bounded: seeded random triple lists (symbols, numbers, quoted strings with commas/parentheses/^) x indent x all documented spacing variants')
 _p('C20', 'command equals the library pipeline',
    'bounded: python -m penman subprocess vs the library pipeline over option subsets (every flag alone, thorough: all pairs, random subsets) x models {default, --amr, --noop, --model file} x formats x stdin/one file/several files; byte idempotence; plain run decodes to the same graphs')
+
+
+# ---- which properties have a deductive part (vlib/pyvc/units.py) and what it decides ------------
+def _attach():
+    from vlib.pyvc import units
+    for pid, u in units.UNITS.items():
+        PROPS[pid]['obligations'] = list(u.get('functions', [])) + ['lemma:' + x for x in u.get('lemmas', [])]
+        PROPS[pid]['level'] = u.get('level', 'other')
+        PROPS[pid]['explanation'] = u.get('explanation', '')
+        for k in ('level_text', 'level_note', 'technique'):
+            if k in u:
+                PROPS[pid][k] = u[k]
+
+
+_attach()
